@@ -1226,6 +1226,13 @@ def run_parent_spec(spec, rec):
                         j['response'] = sa[0][2] if sa else None
                     if not h.accepted():
                         V('refused_job_not_marked_accepted')
+                    # nobody runs a refused job: it has no owner and no acceptance
+                    # time (the time-limit scanner and the supervisor would act on
+                    # the refusing worker, which is busy with another job by then)
+                    rec.count('parent:refused_owner_checked')
+                    if h.worker_pids() or getattr(h, '_time_accepted', None) is not None:
+                        V('refused_job_has_an_owner', worker_pids=h.worker_pids(),
+                          time_accepted=getattr(h, '_time_accepted', None))
                 else:
                     if j['cancel_at'] == 'after_ack':
                         rec.count('parent:cancel_after_ack')
